@@ -1,5 +1,6 @@
 """C02 — directory tree round trip with metadata (writeall -> extractall)."""
 import os
+import re
 import shutil
 import stat
 import tempfile
@@ -188,6 +189,11 @@ def run(ctx):
                 opts.update({"password": None, "dereference": False, "arcname": None, "dest": "given"})
             if opts["entry"] == "api-dot":
                 opts.update({"arcname": None, "dest": "given"})
+            if opts["entry"] in ("api-dot", "shutil-root") and any(re.match(r"^[a-zA-Z]:", r) for r, k, p in spec):
+                # stored without a leading directory, a first component like 'c:' is a drive prefix to write()/writeall(),
+                # which remove it by design (C16; tests/test_archive.py::test_compress_win32_absolute_arcname): such a
+                # tree is archived under its directory name instead
+                opts["entry"] = "api" if opts["entry"] == "api-dot" else "shutil"
             jobs.append((spec, opts, tmp))
             meta.append((spec, opts))
         # fixed shapes: links to the top of the tree from one and two levels down, every way of storing the tree
